@@ -300,7 +300,13 @@ func (e *env) open() bool {
 	return e.guard("open", func() {
 		e.under = dbm.NewDB("c19", backendTypes[e.cfg.Backend], e.dir, e.cfg.Counts)
 		if e.cfg.View {
-			e.db = dbm.NewPrefixDB(e.under, e.prefix)
+			// callers hand in prefixes of every provenance: exact-capacity slices, string conversions and
+			// slices with spare capacity (built by append). A view must never write into that spare capacity.
+			pfx := e.prefix
+			if e.cfg.Ops%2 == 0 {
+				pfx = append(make([]byte, 0, len(e.prefix)+8+e.cfg.Ops%5), e.prefix...)
+			}
+			e.db = dbm.NewPrefixDB(e.under, pfx)
 		} else {
 			e.db = e.under
 		}
